@@ -152,6 +152,12 @@ def special_families():
         evs += [E(1, "OHe")]
         jobs.append(("model:boundary-task-type-labels", system, evs))
         jobs.append(("breakdown:boundary-task-type-labels", system, evs))
+        # histories the specification REJECTS, continued with uses of what the rejected event would have created
+        # (a task of an undeclared type that runs, a task that was never created): if the emulator accepts one,
+        # what it writes is judged like any other accepted trace
+        for bad in ([E(1, Tc, [1, 9])], []):
+            evs = [E(1, "OHx", [0, 101, 7]), E(1, Y, [1, 5], True)] + bad + [ex(1, 1), end(1, 1), E(1, "OHe")]
+            jobs.append(("model-rejected:uses-of-a-refused-creation", system, evs))
     return jobs
 
 
@@ -165,7 +171,21 @@ def main(pid, tier):
     for cfg in (MODEL_CFGS_QUICK if tier == 'quick' else MODEL_CFGS):
         r, g = emuhist.explore(cfg)
         ck.add_tlc(r, "EmuMC/" + cfg)
-        hs = [x for x in g.histories() if x[0] == "accept"]
+        allhs = g.histories()
+        hs = [x for x in allhs if x[0] == "accept"]
+        # "every accepted trace" is what the EMULATOR accepts: histories the specification rejects (with their
+        # legal completion) are run as well; should the emulator accept one, its output is judged like any other
+        rej = [x for x in allhs if x[0] == "reject+completion"]
+        rng.shuffle(rej)
+        seen_ev = set()
+        nrej = 0
+        for kind, events, t in rej:
+            key = json.dumps(t["ev"], sort_keys=True)
+            if key in seen_ev or nrej >= per // 2:
+                continue
+            seen_ev.add(key)
+            nrej += 1
+            jobs.append(("model-rejected:" + cfg, emuhist.sys_with_rank(g.system), events))
         rng.shuffle(hs)
         # prefer long histories (more PRV content)
         hs.sort(key=lambda x: -len(x[1]))
@@ -200,6 +220,7 @@ def main(pid, tier):
     # output faults: the longest histories once more with the output files limited to 512 / 1536 bytes
     # (writes beyond that fail): either the emulator reports the failure, or what it wrote is well-formed
     longest = sorted([j for j in jobs if j[0].startswith("model:")], key=lambda j: -len(j[2]))[:12]
+    ck.notes["histories_rejected_by_the_spec_run_anyway"] = sum(1 for j in jobs if j[0].startswith("model-rejected:"))
     jobs += [("fault:" + j[0] + ":%d" % nb, j[1], j[2]) for j in longest for nb in (1, 3)]
 
     def one(j):
